@@ -20,3 +20,4 @@ MUTANTS.append(dict(name="responses-iterated-in-sorted-raw-key-order", file='cor
 MUTANTS.append(dict(name="nullable-flag-not-reset-per-property", file='core/parsing/schema_parser.py', expect="R19.6", old='                if should_create_reference:\n                    prop_is_nullable = False\n', new='                if should_create_reference:\n',
     also=("    parsed_props: dict[str, IRSchema] = existing_properties.copy()\n", "    parsed_props: dict[str, IRSchema] = existing_properties.copy()\n    prop_is_nullable = False\n")))
 MUTANTS.append(dict(name='response-conversion-cached-per-node', file='core/loader/responses/parser.py', expect='R19.7', old='    content: dict[str, IRSchema] = {}\n', new='    cached = context.parsed_responses.get((id(node), code))\n    if cached is not None:\n        return cached\n    content: dict[str, IRSchema] = {}\n', also=('    return response\n', '    context.parsed_responses[(id(node), code)] = response\n    return response\n')))
+MUTANTS.append(dict(name="declared-schema-parsed-again-despite-index", file='core/loader/schemas/extractor.py', expect="R19.8", old="        if n not in context.parsed_schemas and n not in context.registered_keys_by_raw_name:\n", new="        if n not in context.parsed_schemas:\n"))
